@@ -22,7 +22,7 @@ PROPERTY = "C19"
 RULE = ("1-3 sample buffers per case, 1-4 frames per buffer: DF17 with correct parity, DF20/21 (any AP), DF4/5/11, plus DF17 with 1-3 flipped bits and valid DF17 of which 1-2 bits arrive with both chips high and nearly balanced (the received bits must be "
         "absent); pulse-position modulation at 2 samples/us behind the 8 us preamble, frame amplitude A in [0.3,1.4] with +-10% per-pulse jitter clipped to "
         "that range, any start offset (both sample parities), gaps of at least one frame length (>= 112 samples behind a short frame, >= 224 behind a long one) and a >= 400-sample noise-only lead; every non-pulse sample is noise "
-        "bounded by n = min(rho * A_min, 0.19) with rho in [0, 0.316) drawn per buffer (every pulse >= 10 dB above every noise sample of its buffer), shapes zero/constant/uniform/two-level, plus steady noise with drop-outs whose *mean* - the reader's noise floor - is 10 dB below the pulses (peaks up to 0.36 A_min); "
+        "bounded by n = min(rho * A_min, 0.19) with rho in [0, 0.316) drawn per buffer (every pulse >= 10 dB above every noise sample of its buffer), shapes zero/constant/uniform/two-level, plus steady noise with drop-outs whose *mean* - the reader's noise floor - is 10 dB below the pulses (on 70 % of the samples, peaks up to 0.37 A_min); "
         "reader created by RtlReader() / RtlReader(debug=True) with a stand-in for the missing rtlsdr module; consecutive _process_buffer() calls share the running noise floor. Oracle: the returned hex strings "
         "are exactly the admissible transmitted frames, in order, upper case, right length; every returned DF17 has reference CRC 0. "
         "non-trivial = >= 2 frames of different length, odd start offset, rho > 0.1, or a corrupted DF17 present"
@@ -47,7 +47,7 @@ def noise_sample(shape, n, seed, k):
     if shape == "uniform":
         return n * u
     if shape == "mostly-on":
-        return n if u < 0.85 else 0.0   # steady noise with drop-outs: the mean (the reader's noise floor) is 0.85 n, the median n
+        return n if u < 0.70 else 0.0   # steady noise with drop-outs: the mean (the reader's noise floor) is 0.70 n, the median n
     return n if u < 0.25 else 0.0  # two-level
 
 
@@ -180,9 +180,10 @@ def s_case(draw):
                      "shape": draw(st.sampled_from(["zero", "constant", "uniform", "uniform", "two-level", "mostly-on"])), "nseed": draw(gen.ubits(32)),
                      "rho": draw(st.one_of(gen.ufloat(0.0, 0.316), gen.ufloat(0.2, 0.316), st.sampled_from([0.0, 0.0, 0.25, 0.3159])))})
         if bufs[-1]["shape"] == "mostly-on":
-            # here the level is set against the noise floor as the reader measures it - the mean of a 100 us window, 0.85 n - so that the
-            # pulses are 10 dB above the floor while the peaks of the noise are a little less than 10 dB below them
-            bufs[-1]["rho"] = draw(st.one_of(gen.ufloat(0.30, 0.36), st.sampled_from([0.36, 0.33])))
+            # here the level is set against the noise floor as the reader measures it - the mean of a 100 us window: 0.70 n, at most 0.83 n for
+            # any single window (4 sigma of 200 samples) - so that the pulses (>= n / 0.37 = 2.7 n) stay 10 dB above every window mean, while the
+            # peaks of the noise are less than 10 dB below them
+            bufs[-1]["rho"] = draw(st.one_of(gen.ufloat(0.30, 0.37), st.sampled_from([0.37, 0.33])))
     # a frame received correctly and then again with errors in its parity field only (1-3 flips inside the last 24 bits)
     if draw(gen.uint(0, 2)) == 0:
         good = [(bi, ii) for bi, bf in enumerate(bufs) for ii, it in enumerate(bf["items"]) if admissible(it["msg"]) and len(it["msg"]) == 28 and int(it["msg"][:2], 16) >> 3 == 17]
